@@ -55,11 +55,17 @@ TrOp ==
   /\ nops' = nops + 1
   /\ UNCHANGED <<tid, capSum, nseg, done>>
 
+\* the policy panicked inside a step (the eviction step did not complete); the history ends there
+TrPanic ==
+  /\ l <= Len(Trace) /\ Ev.ev = "panic" /\ l' = l + 1
+  /\ viol' = V("policy_step_panicked")
+  /\ UNCHANGED <<st, tid, capSum, div, nops, nseg, done>>
+
 Finish ==
   /\ l = Len(Trace) + 1 /\ ~done /\ done' = TRUE
   /\ JsonSerialize(IOEnv.VERIF_RESULT, [lines |-> Len(Trace), consumed |-> l - 1, viol |-> viol, div |-> div, ops |-> nops, traces |-> nseg])
   /\ UNCHANGED <<l, st, tid, capSum, viol, div, nops, nseg>>
 
-TraceNext == TrReset \/ TrOp \/ Finish
+TraceNext == TrReset \/ TrOp \/ TrPanic \/ Finish
 TraceSpec == TraceInit /\ [][TraceNext]_tvars
 =============================================================================
